@@ -806,6 +806,134 @@ pub fn idx(i: u16, len: usize) -> usize {
 /// Thorough-tier extra for C02/C10/C11: the same generators and oracles against `des` built without the `cqueue`
 /// feature (BinaryHeap event set). Runs the separate crate /verif/harness-heap as a child.
 #[cfg(not(vcheck_heap_backend))]
+/// Thorough tier of C15: the same histories, shorter, executed under Miri (`harness-miri`), 16 shards in parallel.
+/// Miri's aliasing model (Stacked/Tree Borrows) is switched off: des-cqueue's allocator keeps raw pointers next to `&mut`
+/// by design, which both experimental models reject at the first allocation; what remains checked is what C15 states:
+/// every access in bounds of a live allocation, aligned and initialised, nothing freed twice.
+pub fn miri_extra(seed: u64, ev: &mut ExtraEvidence) -> Vec<Violation> {
+    const FLAGS: &str = "-Zmiri-disable-isolation -Zmiri-disable-stacked-borrows -Zmiri-ignore-leaks -Zmiri-permissive-provenance";
+    const SHARDS: usize = 16;
+    const CASES: usize = 10;
+    const MAX_OPS: usize = 48;
+    let dir = verif_root().join("harness-miri");
+    let miri = |args: &[String]| {
+        let mut c = Command::new("cargo");
+        c.arg("+nightly").arg("miri").arg("run").arg("--quiet").arg("--").args(args);
+        c.current_dir(&dir).env("MIRIFLAGS", FLAGS).env("CARGO_NET_OFFLINE", "true");
+        c.stdin(Stdio::null()).stdout(Stdio::piped()).stderr(Stdio::piped());
+        c
+    };
+    // build (and set up the Miri sysroot) once
+    match miri(&["cases=0".to_string()]).output() {
+        Ok(o) if o.status.success() => {}
+        Ok(o) => {
+            let err = String::from_utf8_lossy(&o.stderr);
+            let tail: Vec<&str> = err.lines().rev().filter(|l| !l.trim().is_empty()).take(6).collect();
+            ev.fields.insert("miri".into(), json!({"status": "not run: build under Miri failed", "detail": tail}));
+            return Vec::new();
+        }
+        Err(e) => {
+            ev.fields.insert("miri".into(), json!({"status": format!("not run: cargo miri unavailable: {e}")}));
+            return Vec::new();
+        }
+    }
+    let out_dir = verif_root().join("replays").join("C15");
+    let _ = std::fs::create_dir_all(&out_dir);
+    let mut children = Vec::new();
+    for shard in 0..SHARDS {
+        let case_file = out_dir.join(format!("miri-shard-{shard}.json"));
+        let _ = std::fs::remove_file(&case_file);
+        let args = vec![
+            format!("seed={seed}"),
+            format!("shard={}", shard + 1),
+            format!("cases={CASES}"),
+            format!("max_ops={MAX_OPS}"),
+            format!("case_file={}", case_file.display()),
+        ];
+        if let Ok(child) = miri(&args).spawn() {
+            children.push((shard, case_file, child));
+        }
+    }
+    let started = children.len();
+    let (mut cases, mut nontrivial, mut ops, mut inconclusive) = (0u64, 0u64, 0u64, 0usize);
+    let mut violations = Vec::new();
+    let deadline = Instant::now() + Duration::from_secs(1800);
+    for (shard, case_file, mut child) in children {
+        // drain the pipes in threads so that a chatty interpreter cannot block
+        let mut so = child.stdout.take().expect("stdout");
+        let mut se = child.stderr.take().expect("stderr");
+        let t1 = std::thread::spawn(move || {
+            let mut s = String::new();
+            let _ = std::io::Read::read_to_string(&mut so, &mut s);
+            s
+        });
+        let t2 = std::thread::spawn(move || {
+            let mut s = String::new();
+            let _ = std::io::Read::read_to_string(&mut se, &mut s);
+            s
+        });
+        let status = loop {
+            match child.try_wait() {
+                Ok(Some(st)) => break Some(st),
+                Ok(None) if Instant::now() > deadline => {
+                    let _ = child.kill();
+                    let _ = child.wait();
+                    break None;
+                }
+                Ok(None) => std::thread::sleep(Duration::from_millis(200)),
+                Err(_) => break None,
+            }
+        };
+        let stdout = t1.join().unwrap_or_default();
+        let stderr = t2.join().unwrap_or_default();
+        let num = |line: &str, key: &str| -> u64 {
+            line.split(' ').find_map(|t| t.strip_prefix(&format!("{key}="))).and_then(|v| v.parse().ok()).unwrap_or(0)
+        };
+        if let Some(l) = stdout.lines().find(|l| l.starts_with("MIRI-OK")) {
+            cases += num(l, "cases");
+            nontrivial += num(l, "nontrivial");
+            ops += num(l, "ops");
+            continue;
+        }
+        let ub = stderr.lines().find(|l| l.starts_with("error: Undefined Behavior") || l.starts_with("error: memory leaked"));
+        let oracle = stdout.lines().find(|l| l.starts_with("MIRI-FAIL"));
+        match (status, ub, oracle) {
+            (Some(_), Some(l), _) | (Some(_), None, Some(l)) if case_file.exists() => {
+                let replay = out_dir.join(format!("miri-{seed}-{shard}.json"));
+                let _ = std::fs::rename(&case_file, &replay);
+                let at = stderr.lines().skip_while(|x| !x.starts_with("error:")).find(|x| x.trim_start().starts_with("-->")).unwrap_or("").trim();
+                violations.push(Violation {
+                    sig: if ub.is_some() { "miri-undefined-behaviour".into() } else { "miri-oracle".into() },
+                    msg: format!(
+                        "{l} {at} (reproduce: cd {} && MIRIFLAGS='{FLAGS}' cargo +nightly miri run -- replay={})",
+                        dir.display(),
+                        replay.display()
+                    ),
+                    replay: replay.display().to_string(),
+                });
+            }
+            _ => inconclusive += 1,
+        }
+    }
+    ev.evaluations += cases;
+    ev.fields.insert(
+        "miri".into(),
+        json!({
+            "status": if started == 0 { "not run: could not start cargo miri" } else if inconclusive > 0 { "ran, some shards inconclusive (timeout or interpreter failure without a saved case)" } else { "ran" },
+            "flags": FLAGS,
+            "shards": started,
+            "inconclusive_shards": inconclusive,
+            "histories": cases,
+            "histories_nontrivial": nontrivial,
+            "queue_operations": ops,
+            "max_ops_per_history": MAX_OPS,
+            "violations": violations.len(),
+            "what_it_decides": "every memory access of des-cqueue's unsafe code during these histories is inside a live allocation, aligned and initialised; no double free (aliasing models off, leaks ignored)",
+        }),
+    );
+    violations
+}
+
 pub fn heap_backend_extra(id: &str, seed: u64, ev: &mut ExtraEvidence) -> Vec<Violation> {
     let dir = verif_root().join("harness-heap");
     let build = Command::new("cargo")
